@@ -1,0 +1,308 @@
+//! Verification hooks. Only compiled with `--cfg wild_verif`. Every hook is inert unless the
+//! environment variable that drives it is set, so a hook build behaves like a regular build by
+//! default.
+//!
+//! * `WILD_VERIF_PHASELOG=<path>`: append `<pid> <name>#<n>` for each phase boundary passed.
+//! * `WILD_VERIF_FAULT=<kind>@<name>#<n>`: raise a fault when phase `<name>` is entered for the
+//!   n-th time (n counts from 1, `*` matches every instance). Kinds: panic, abort, sigkill,
+//!   sigsegv, oom, exit1.
+//! * `WILD_VERIF_PAUSE=<name>#<n>[|<name>#<n>...]` with `WILD_VERIF_PAUSE_NOTIFY=<fifo>` and
+//!   `WILD_VERIF_PAUSE_RESUME=<fifo>`: write `<pid> <name>#<n>` to the notify fifo, then block
+//!   until a byte can be read from the resume fifo.
+//! * `WILD_VERIF_SCHED=<seed>[:<percent>]` (+ optional `WILD_VERIF_SCHED_SITES=a,b` substring
+//!   filter, `WILD_VERIF_SCHEDLOG=<path>`): seeded yields/spins/sleeps at task starts and hand-off
+//!   windows.
+//! * `WILD_VERIF_EVLOG=<path>`: append one line `seq tid kind a b c` per protocol event.
+
+use std::collections::HashMap;
+use std::io::Write as _;
+use std::os::fd::AsRawFd as _;
+use std::os::fd::RawFd;
+use std::sync::Mutex;
+use std::sync::OnceLock;
+use std::sync::atomic::AtomicU64;
+use std::sync::atomic::Ordering;
+
+struct PhaseSpec {
+    name: String,
+    /// None means every instance.
+    instance: Option<u32>,
+}
+
+struct Config {
+    phase_log: Option<RawFd>,
+    fault: Option<(PhaseSpec, String)>,
+    pause: Vec<PhaseSpec>,
+    pause_notify: Option<String>,
+    pause_resume: Option<String>,
+    sched: Option<(u64, u64)>,
+    sched_sites: Vec<String>,
+    sched_log: Option<String>,
+    ev_log: Option<RawFd>,
+    phases_active: bool,
+}
+
+fn open_append(path: &str) -> Option<RawFd> {
+    let file = std::fs::OpenOptions::new()
+        .create(true)
+        .append(true)
+        .open(path)
+        .ok()?;
+    let fd = file.as_raw_fd();
+    // Deliberately leaked: the descriptor must stay valid for the life of the process (and of a
+    // forked child).
+    std::mem::forget(file);
+    Some(fd)
+}
+
+fn parse_phase_spec(s: &str) -> Option<PhaseSpec> {
+    let (name, instance) = s.rsplit_once('#')?;
+    let instance = if instance == "*" {
+        None
+    } else {
+        Some(instance.parse().ok()?)
+    };
+    Some(PhaseSpec {
+        name: name.to_owned(),
+        instance,
+    })
+}
+
+fn config() -> &'static Config {
+    static CONFIG: OnceLock<Config> = OnceLock::new();
+    CONFIG.get_or_init(|| {
+        let var = |name: &str| std::env::var(name).ok().filter(|v| !v.is_empty());
+        let phase_log = var("WILD_VERIF_PHASELOG").and_then(|p| open_append(&p));
+        let fault = var("WILD_VERIF_FAULT").and_then(|v| {
+            let (kind, spec) = v.split_once('@')?;
+            Some((parse_phase_spec(spec)?, kind.to_owned()))
+        });
+        let pause: Vec<PhaseSpec> = var("WILD_VERIF_PAUSE")
+            .map(|v| v.split('|').filter_map(parse_phase_spec).collect())
+            .unwrap_or_default();
+        let sched = var("WILD_VERIF_SCHED").and_then(|v| {
+            let mut parts = v.split(':');
+            let seed: u64 = parts.next()?.parse().ok()?;
+            let percent: u64 = parts.next().and_then(|p| p.parse().ok()).unwrap_or(30);
+            Some((seed, percent.min(100)))
+        });
+        let sched_sites = var("WILD_VERIF_SCHED_SITES")
+            .map(|v| v.split(',').map(str::to_owned).collect())
+            .unwrap_or_default();
+        let sched_log = var("WILD_VERIF_SCHEDLOG");
+        if sched.is_some() && sched_log.is_some() {
+            unsafe {
+                libc::atexit(dump_sched_log);
+            }
+        }
+        let ev_log = var("WILD_VERIF_EVLOG").and_then(|p| open_append(&p));
+        let phases_active = phase_log.is_some() || fault.is_some() || !pause.is_empty();
+        Config {
+            phase_log,
+            fault,
+            pause,
+            pause_notify: var("WILD_VERIF_PAUSE_NOTIFY"),
+            pause_resume: var("WILD_VERIF_PAUSE_RESUME"),
+            sched,
+            sched_sites,
+            sched_log,
+            ev_log,
+            phases_active,
+        }
+    })
+}
+
+fn raw_write(fd: RawFd, bytes: &[u8]) {
+    unsafe {
+        libc::write(fd, bytes.as_ptr().cast(), bytes.len());
+    }
+}
+
+fn matches(spec: &PhaseSpec, name: &str, n: u32) -> bool {
+    spec.name == name && spec.instance.is_none_or(|i| i == n)
+}
+
+/// Called at each phase boundary (`timing_phase!` sites plus a few explicit points).
+pub(crate) fn phase(name: &'static str) {
+    let cfg = config();
+    if !cfg.phases_active {
+        return;
+    }
+    static COUNTS: Mutex<Option<HashMap<&'static str, u32>>> = Mutex::new(None);
+    let n = {
+        let mut counts = COUNTS.lock().unwrap_or_else(|e| e.into_inner());
+        let counts = counts.get_or_insert_with(HashMap::new);
+        let n = counts.entry(name).or_insert(0);
+        *n += 1;
+        *n
+    };
+    let pid = std::process::id();
+    if let Some(fd) = cfg.phase_log {
+        raw_write(fd, format!("{pid} {name}#{n}\n").as_bytes());
+    }
+    if cfg.pause.iter().any(|spec| matches(spec, name, n)) {
+        pause(cfg, pid, name, n);
+    }
+    if let Some((spec, kind)) = &cfg.fault
+        && matches(spec, name, n)
+    {
+        if let Some(fd) = cfg.phase_log {
+            raw_write(fd, format!("{pid} FAULT {kind}@{name}#{n}\n").as_bytes());
+        }
+        raise_fault(kind);
+    }
+}
+
+fn pause(cfg: &Config, pid: u32, name: &str, n: u32) {
+    let (Some(notify), Some(resume)) = (&cfg.pause_notify, &cfg.pause_resume) else {
+        return;
+    };
+    if let Ok(mut f) = std::fs::OpenOptions::new().write(true).open(notify) {
+        let _ = f.write_all(format!("{pid} {name}#{n}\n").as_bytes());
+    }
+    if let Ok(mut f) = std::fs::File::open(resume) {
+        let mut byte = [0u8; 1];
+        let _ = std::io::Read::read(&mut f, &mut byte);
+    }
+}
+
+fn raise_fault(kind: &str) {
+    match kind {
+        "panic" => panic!("wild_verif injected panic"),
+        "abort" => std::process::abort(),
+        "sigkill" => unsafe {
+            libc::kill(libc::getpid(), libc::SIGKILL);
+            libc::pause();
+        },
+        "sigsegv" => unsafe {
+            libc::signal(libc::SIGSEGV, libc::SIG_DFL);
+            libc::kill(libc::getpid(), libc::SIGSEGV);
+            libc::pause();
+        },
+        "oom" => {
+            // Takes the same path as a real allocation failure: the allocator returns null and the
+            // standard library calls `handle_alloc_error`.
+            let v: Vec<u8> = Vec::with_capacity(isize::MAX as usize - 4096);
+            std::hint::black_box(v);
+        }
+        "exit1" => std::process::exit(1),
+        _ => {}
+    }
+}
+
+const SITE_SLOTS: usize = 1024;
+static SITE_NAMES: [OnceLock<&'static str>; SITE_SLOTS] = [const { OnceLock::new() }; SITE_SLOTS];
+static SITE_HITS: [AtomicU64; SITE_SLOTS] = [const { AtomicU64::new(0) }; SITE_SLOTS];
+static SITE_PERTURBED: [AtomicU64; SITE_SLOTS] = [const { AtomicU64::new(0) }; SITE_SLOTS];
+
+fn fnv(s: &str) -> u64 {
+    let mut h: u64 = 0xcbf2_9ce4_8422_2325;
+    for b in s.bytes() {
+        h ^= u64::from(b);
+        h = h.wrapping_mul(0x0000_0100_0000_01b3);
+    }
+    h
+}
+
+fn thread_ordinal() -> u64 {
+    static NEXT: AtomicU64 = AtomicU64::new(1);
+    thread_local! {
+        static ORDINAL: u64 = NEXT.fetch_add(1, Ordering::Relaxed);
+    }
+    ORDINAL.with(|o| *o)
+}
+
+/// Called at worker task starts and in hand-off windows between critical sections. Never called
+/// with a lock held.
+pub(crate) fn perturb(site: &'static str) {
+    let cfg = config();
+    let Some((seed, percent)) = cfg.sched else {
+        return;
+    };
+    let site_hash = fnv(site);
+    let slot = (site_hash % SITE_SLOTS as u64) as usize;
+    let _ = SITE_NAMES[slot].set(site);
+    SITE_HITS[slot].fetch_add(1, Ordering::Relaxed);
+    if !cfg.sched_sites.is_empty() && !cfg.sched_sites.iter().any(|s| site.contains(s.as_str())) {
+        return;
+    }
+    thread_local! {
+        static STATE: std::cell::Cell<u64> = const { std::cell::Cell::new(0) };
+    }
+    let r = STATE.with(|state| {
+        let mut x = state.get();
+        if x == 0 {
+            x = seed
+                .wrapping_mul(0x9e37_79b9_7f4a_7c15)
+                .wrapping_add(thread_ordinal().wrapping_mul(0xbf58_476d_1ce4_e5b9))
+                | 1;
+        }
+        x ^= site_hash;
+        x ^= x << 13;
+        x ^= x >> 7;
+        x ^= x << 17;
+        if x == 0 {
+            x = 1;
+        }
+        state.set(x);
+        x
+    });
+    if r % 100 >= percent {
+        return;
+    }
+    SITE_PERTURBED[slot].fetch_add(1, Ordering::Relaxed);
+    match (r >> 8) % 4 {
+        0 => std::thread::yield_now(),
+        1 => {
+            let spins = 100 + (r >> 16) % 5000;
+            for _ in 0..spins {
+                std::hint::spin_loop();
+            }
+        }
+        2 => std::thread::sleep(std::time::Duration::from_micros(20 + (r >> 16) % 100)),
+        _ => std::thread::sleep(std::time::Duration::from_micros(50 + (r >> 16) % 450)),
+    }
+}
+
+extern "C" fn dump_sched_log() {
+    let cfg = config();
+    let Some(path) = &cfg.sched_log else {
+        return;
+    };
+    let Some(fd) = open_append(path) else {
+        return;
+    };
+    let pid = std::process::id();
+    let mut out = String::new();
+    for i in 0..SITE_SLOTS {
+        if let Some(name) = SITE_NAMES[i].get() {
+            let hits = SITE_HITS[i].load(Ordering::Relaxed);
+            let perturbed = SITE_PERTURBED[i].load(Ordering::Relaxed);
+            out.push_str(&format!("{pid}\t{name}\t{hits}\t{perturbed}\n"));
+        }
+    }
+    raw_write(fd, out.as_bytes());
+}
+
+#[inline]
+pub(crate) fn ev_enabled() -> bool {
+    config().ev_log.is_some()
+}
+
+/// Appends one protocol event to the event log. Events that shadow lock-protected state must be
+/// emitted while that lock is held so that log order per lock equals lock order.
+pub(crate) fn ev(kind: &'static str, a: u64, b: u64, c: u64) {
+    let Some(fd) = config().ev_log else {
+        return;
+    };
+    static SEQ: AtomicU64 = AtomicU64::new(0);
+    let seq = SEQ.fetch_add(1, Ordering::SeqCst);
+    let tid = thread_ordinal();
+    let mut buf = [0u8; 128];
+    let len = {
+        let mut cursor = std::io::Cursor::new(&mut buf[..]);
+        let _ = writeln!(cursor, "{seq} {tid} {kind} {a} {b} {c}");
+        cursor.position() as usize
+    };
+    raw_write(fd, &buf[..len]);
+}
